@@ -282,8 +282,38 @@ EvalDecTree(p, a, b) ==
 \* "extract":  x, y := dm(a, b)   (dm returns a+b, a-b);  return SEL*2 + SMALL   (a multi-value call: which result is used)
 EvalExtract(p, a, b) == Val((IF p.sel = "x" THEN a + b ELSE a - b) * 2 + p.small)
 
+\* "effects":  two side effects in a row, in either ORDER.
+\*   kind "stores":  x, y := 0, 0; p, q := &x, &y; if a > 0 { q = &x }; *p = V1; *q = V2; return x*10 + y
+\*                   (the two pointers alias when a > 0: the order of the stores decides)
+\*   kind "calls":   acc = a; bump(1); bump(2); return acc        (bump(k): acc = acc*3 + k)
+\*   kind "mapupd":  m := map[int]int{}; m[clamp(a)] = V1; m[clamp(b)] = V2; return m[clamp(a)]*10 + m[clamp(b)]
+EvalEffects(p, a, b) ==
+  LET first12 == p.order = "12" IN
+  CASE p.kind = "stores" ->
+         IF a > 0 THEN Val((IF first12 THEN p.v2 ELSE p.v1) * 10) ELSE Val(p.v1 * 10 + p.v2)
+    [] p.kind = "calls" ->
+         IF first12 THEN Val((a * 3 + 1) * 3 + 2) ELSE Val((a * 3 + 2) * 3 + 1)
+    [] OTHER ->
+         IF Clamp(a) = Clamp(b) THEN Val((IF first12 THEN p.v2 ELSE p.v1) * 11) ELSE Val(p.v1 * 10 + p.v2)
+
+\* "armloops":  if a CMP b { for i := 0; i < clamp(a); i++ { s += i*2 } } else { for j := 0; j < clamp(b); j++ { s += j+3 } }; return s
+\* (a loop with a used induction variable in EACH arm of a flippable test)
+RECURSIVE SumTo(_, _, _)
+SumTo(n, k, which) == IF k >= n THEN 0 ELSE (IF which = 1 THEN k * 2 ELSE k + 3) + SumTo(n, k + 1, which)
+EvalArmLoops(p, a, b) ==
+  LET c == IF p.pres.flip THEN ~Cmp(Negate(p.cmp), a, b) ELSE Cmp(p.cmp, a, b)
+  IN IF c THEN Val(SumTo(Clamp(a), 0, 1)) ELSE Val(SumTo(Clamp(b), 0, 2))
+
+\* "maplen":  s := MTY{}; t := 0; [n := len(s)]; for i := 0; i < clamp(a); i++ { s[i] = true; t += len(s) | n }; return t + b
+\* (where = "in": len evaluated in every iteration of a loop that grows the map; "before": once, before the loop.
+\*  mty: a map literal type, a DEFINED map type, or a channel that the loop fills — len of those is not invariant)
+EvalMapLen(p, a, b) ==
+  LET n == Clamp(a) IN Val((IF p.where = "in" THEN (n * (n + 1)) \div 2 ELSE 0) + b)
+
 Eval(p, a, b) ==
   CASE p.tpl = "branch" -> EvalBranch(p, a, b)
+    [] p.tpl = "effects" -> EvalEffects(p, a, b) [] p.tpl = "armloops" -> EvalArmLoops(p, a, b)
+    [] p.tpl = "maplen" -> EvalMapLen(p, a, b)
     [] p.tpl = "sharedcmp" -> EvalSharedCmp(p, a, b) [] p.tpl = "fltbranch" -> EvalFltBranch(p, a, b)
     [] p.tpl = "extract" -> EvalExtract(p, a, b)
     [] p.tpl = "ubig" -> EvalUBig(p, a, b) [] p.tpl = "consttype" -> EvalConstType(p, a, b)
@@ -326,6 +356,9 @@ StrBranch == [tpl : {"strbranch"}, cmp : Cmps, lit : {2, 3}, elseE : {"b", "7"},
 BigConst == [tpl : {"bigconst"}, k1 : {1000, 2000, 17, -1000}, k2 : {100000, 50000}, small : {3, 5}, pres : {Plain}]
 UBig == [tpl : {"ubig"}, k : {"max", "max7", "hi16", "mid"}, small : {3, 5}, pres : {Plain}]
 ConstType == [tpl : {"consttype"}, ty : {"int32", "int64", "uint8"}, pres : {Plain}]
+Effects == [tpl : {"effects"}, kind : {"stores", "calls", "mapupd"}, order : {"12", "21"}, v1 : {1, 3}, v2 : {2, 5}, pres : {Plain}]
+ArmLoops == [tpl : {"armloops"}, cmp : {">=", ">", "<", "<="}, pres : {Plain}]
+MapLen == [tpl : {"maplen"}, where : {"in", "before"}, mty : {"plain", "named", "chan"}, pres : {Plain}]
 Leaves == {"a+b", "b", "7"}
 DecTree == [tpl : {"dectree"}, c2 : {"b>0", "a>b"}, c3 : {"b>0", "a>b"}, l1 : Leaves, l2 : Leaves, l3 : Leaves, l4 : Leaves, form : {"ret", "glob"}, pres : {Plain}]
 Labeled == [tpl : {"labeled"}, jump : {"break", "continue"}, lim : {1, 3}, g : {"i*10+j", "j*10+i", "i+j"}, pres : {Plain}]
@@ -341,7 +374,7 @@ Holes(p) == DOMAIN p \ {"tpl", "pres"}
 \* the values a hole may take (for one-hole edits)
 Alt(p, h) ==
   CASE h \in {"cmp"} -> IF p.tpl = "loop" THEN {"<", "<="} ELSE IF p.tpl = "orand" THEN {">", ">="}
-                         ELSE IF p.tpl = "hoistarms" THEN {">=", ">", "<", "<="} ELSE Cmps
+                         ELSE IF p.tpl \in {"hoistarms", "armloops"} THEN {">=", ">", "<", "<="} ELSE Cmps
     [] h \in {"lhs", "bound", "outer"} -> {"a", "b"}
     [] h = "rhs" -> IF p.tpl \in {"loopbranch", "rangebranch", "sharedcmp"} THEN {"b", "k"} ELSE {"a", "b", "k"}
     [] h = "sel" -> {"x", "y"}
@@ -349,6 +382,7 @@ Alt(p, h) ==
     [] h = "lit" -> {2, 3}
     [] h \in {"thenE", "elseE"} -> IF p.tpl = "strbranch" THEN {"b", "7"} ELSE IF p.tpl \in {"sharedcmp", "fltbranch", "orand", "switch2"} THEN SExprs ELSE Exprs
     [] h = "k1" -> {1000, 2000, 17, -1000} [] h = "k" -> {"max", "max7", "hi16", "mid"}
+    [] h = "order" -> {"12", "21"} [] h = "where" -> {"in", "before"} [] h = "v1" -> {1, 3} [] h = "v2" -> {2, 5}
     [] h \in {"c2", "c3"} -> {"b>0", "a>b"} [] h \in {"l1", "l2", "l3", "l4"} -> Leaves
     [] h = "ty" -> IF p.tpl = "ivwidth" THEN {"uint8", "uint16"} ELSE {"int32", "int64", "uint8"}
     [] h = "idx" -> {"i", "rev", "zero"}
